@@ -74,6 +74,11 @@ def cmpOp {α : Type} [Cmp α] [Codec α] (op : String) (args : List String) : O
   | "from_range_incl" => do
       let (a, r) ← pElem (α := α) args; let (b, _) ← pElem (α := α) r
       pure (encIRes (Interval.tryFromRangeInclusive a b))
+  | "from_range_used" => do
+      -- a range that was iterated before the conversion: only the bounds it holds now matter
+      let (_, r) ← pTok args
+      let (a, r) ← pElem (α := α) r; let (b, _) ← pElem (α := α) r
+      pure (encIRes (Interval.tryFromRangeInclusive a b))
   | "from_optpair" => do
       let (a, r) ← pOpt (α := α) args; let (b, _) ← pOpt (α := α) r
       pure (encIRes (Interval.tryFromOptPair (a, b)))
@@ -243,6 +248,17 @@ def uArith (op : String) (args : List String) : Option (List String) :=
     | none => false
   pure (if bad then ["panic", "overflow"] else r)
 
+/-- interval arithmetic over `i8` (overflow checks on): the exact image over the integers when every bound of it
+    is representable (however wide the result), the overflow panic otherwise -/
+def sArith (op : String) (args : List String) : Option (List String) :=
+  if !(["add", "sub", "mul", "neg", "addi", "subi"].contains op) then none else do
+  let r ← numOp (α := Int) op args
+  if r.head? == some "panic" then pure r else
+  let bad := r.any fun t => match parseInt? t with
+    | some v => v < -128 || v > 127
+    | none => false
+  pure (if bad then ["panic", "overflow"] else r)
+
 def first (xs : List (Option (List String))) : Option (List String) :=
   xs.foldl (fun acc x => match acc with | some a => some a | none => x) none
 
@@ -259,6 +275,7 @@ def intervalOp (op ty : String) (args : List String) : Option (List String) :=
   | "u" => first [uArith op args, cmpOp (α := Nat) op args,
                   @extOp Nat natNumOps u8Extremes _ op args,
                   hashOp (α := Nat) (fun x => ["u8:" ++ toString x]) op args]
+  | "b" => first [sArith op args, cmpOp (α := Int) op args]
   | "n" => if op == "pairs" then pairsOp args else cmpOp (α := Nat) op args
   | _ => none
 
